@@ -19,6 +19,7 @@ def run(ctx):
         ctx, "C17", 1,
         variants=[{"impl": "compact-split", "cores": 2, "split": 1, "max": (24, 300)},
                   {"impl": "compact-split", "cores": 1, "split": 2, "max": (12, 150)},
+                  {"impl": "compact-split", "cores": 1, "split": 4, "max": (12, 150)},   # overlay file loaded before its base
                   # every point present in three files: search must return it once (enumeration of duplicated
                   # features is not part of the statement and is not compared)
                   {"impl": "compact-split", "cores": 1, "split": 3, "max": (14, 150),
